@@ -209,14 +209,14 @@ Section Cores.
     clogF (fst (workF cs n acc)) = clogF cs ++ [(idF acc, snd (workF cs n acc))].
   Proof.
     intros cs n acc. unfold workF.
-    destruct (accval acc <=? cf_synced cs)%N; cbn [fst snd]; unfold clogF, clogFl; cbn [cf_log];
+    destruct (accval acc <=? cf_synced cs)%N; [|destruct (cf_failed cs)]; cbn [fst snd]; unfold clogF, clogFl; cbn [cf_log];
       rewrite map_app; reflexivity.
   Qed.
 
   Lemma workF_len : forall cs n acc, n <= length (snd (workF cs n acc)).
   Proof.
     intros cs n acc. unfold workF.
-    destruct (accval acc <=? cf_synced cs)%N; cbn [snd]; rewrite repeat_length; apply le_n.
+    destruct (accval acc <=? cf_synced cs)%N; [|destruct (cf_failed cs)]; cbn [snd]; rewrite repeat_length; apply le_n.
   Qed.
 
   Definition GIW (g : gW) : Prop := GI idW clogW g.
@@ -289,6 +289,28 @@ Section Cores.
   Close Scope N_scope.
 End Cores.
 
+(* the fsync core's log: while no fdatasync has failed every work call answered true, and every
+   successful fdatasync comes before the first call that answered false *)
+Definition PFl (failed : bool) (log : list lf) : Prop :=
+  (failed = false -> Forall (fun e => lf_out e = true) log) /\
+  (forall pre e post, log = pre ++ e :: post -> lf_sync e = true -> Forall (fun y => lf_out y = true) pre).
+
+Lemma PFl_snoc : forall f f' log x, PFl f log ->
+  (f' = false -> f = false /\ lf_out x = true) -> (lf_sync x = true -> f = false) ->
+  PFl f' (log ++ [x]).
+Proof.
+  intros f f' log x [H1 H2] Ha Hb. split.
+  - intros Hf. destruct (Ha Hf) as [Hf0 Hx]. apply Forall_app. split; [apply H1; exact Hf0|]. constructor; [exact Hx|constructor].
+  - intros pre e post E Hs.
+    destruct (exists_last (l:=e :: post) ltac:(discriminate)) as (q & y & Eq).
+    rewrite Eq, app_assoc in E. apply app_inj_tail in E. destruct E as [E <-].
+    destruct post as [|z post].
+    + destruct q; [|destruct q; discriminate]. cbn in Eq. injection Eq as <-. rewrite app_nil_r in E. subst pre.
+      apply H1. apply Hb. exact Hs.
+    + destruct q as [|e' q]; [discriminate|]. injection Eq as <- Eq.
+      apply (H2 pre e q); [exact E|exact Hs].
+Qed.
+
 Lemma fold_max_ge_init : forall l a, (a <= fold_left N.max l a)%N.
 Proof. induction l as [|x l IH]; intros a; cbn [fold_left]; [lia|]. eapply N.le_trans; [|apply IH]. lia. Qed.
 
@@ -340,7 +362,8 @@ Section Glue.
           forall id w, In (id, w) (lf_items e) -> durpair (cw_log (cW k)) (k_durable k) id w;
     knt : length (g_threads (k_F k)) = length (g_threads (k_W k));
     kow : forall t id w, In (id, w) (nth t progsF []) ->
-          exists thW, nth_error (g_threads (k_W k)) t = Some thW /\ In (id, Some w) (t_done thW)
+          exists thW, nth_error (g_threads (k_W k)) t = Some thW /\ In (id, Some w) (t_done thW);
+    kfl : PFl (cf_failed (cF k)) (cf_log (cF k))
   }.
 
   (* ---- how the write core can change in one step of queue W *)
@@ -385,9 +408,9 @@ Section Glue.
        forall id w, In (id, w) (lf_items e) -> durpair (cw_log (g_core g')) (k_durable k) id w).
   Proof.
     intros progsF k g' HK [E | (n & acc & E & Hbuf)].
-    - rewrite E. destruct HK as [_ _ _ _ HP Hin Hsy Hdl Hsn Hdn _ _].
+    - rewrite E. destruct HK as [_ _ _ _ HP Hin Hsy Hdl Hsn Hdn _ _ _].
       exact (conj HP (conj Hin (conj Hsy (conj Hdl (conj Hsn Hdn))))).
-    - destruct HK as [_ _ _ _ HP Hin Hsy Hdl Hsn Hdn _ _].
+    - destruct HK as [_ _ _ _ HP Hin Hsy Hdl Hsn Hdn _ _ _].
       destruct (PW_work bits crc rollover HB (cW k) n acc HP) as (HP' & Hw & Hb & Hlog & Hmark).
       rewrite E. split; [exact HP'|]. split; [|split; [lia|split; [lia|split]]].
       + intros id w Hi. destruct (Hin id w Hi) as (k0 & e & He). exists k0, e. rewrite Hlog. apply (okentry_app bits HB). exact He.
@@ -539,6 +562,7 @@ Section Glue.
         destruct (Nat.eqb_spec t0 t) as [->|Hne]; [|apply How'; exact Hi].
         apply in_app_or in Hi. destruct Hi as [Hi|[E|[]]]; [apply How'; exact Hi|].
         injection E as -> ->. exists th'. split; [exact Hth'|exact Hin_done].
+      + exact (kfl _ _ HK).
     - (* a step of queue F *)
       destruct (exec_safe (Inp:=inpF) (Outp:=bool) (Acc:=accF) (CS:=cf) (acc0:=[]) (can_batch:=can_batchF) (batch:=batchF) (work:=workF)
                   progsF workF_len (k_F k) a (kiF _ _ HK)) as (g' & Hex & HI').
@@ -568,7 +592,7 @@ Section Glue.
         constructor; cbn [k_W k_F k_durable]; unfold cW, cF; cbn [k_W k_F]; rewrite ?Hc;
           try assumption; try (destruct HK; assumption). rewrite Hlen'. exact (knt _ _ HK).
       + (* FsyncCoalescingCore::work on the inputs acc *)
-        destruct HK as [HIW HIF HGW HGF HP Hin Hsy Hdl Hsn Hdn Hnt How].
+        destruct HK as [HIW HIF HGW HGF HP Hin Hsy Hdl Hsn Hdn Hnt How Hfl0].
         unfold cW, cF in *.
         assert (Hmarks : forall id w, In (id, w) acc ->
                   exists k0 e, okentry (cw_log (g_core (k_W k))) id w k0 e /\ (w <= cw_written (g_core (k_W k)))%N).
@@ -582,13 +606,33 @@ Section Glue.
           intros w Hw. apply in_map_iff in Hw. destruct Hw as ([id w'] & <- & Hi).
           destruct (Hmarks id w' Hi) as (_ & _ & _ & Hle). exact Hle. }
         rewrite Hc. unfold workF.
+        destruct (cf_failed (g_core (k_F k))) eqn:Hfl;
         destruct (N.leb_spec (accval acc) (cf_synced (g_core (k_F k)))) as [Hskip | Hsync];
           cbn [fst cf_log]; rewrite skipn_app, skipn_all2 by apply le_n;
           rewrite Nat.sub_diag; cbn [app skipn existsb lf_sync orb].
         * (* already synced far enough *)
-          constructor; cbn [k_W k_F k_durable]; unfold cW, cF; cbn [k_W k_F]; rewrite ?Hc; unfold workF;
+          constructor; cbn [k_W k_F k_durable]; unfold cW, cF; cbn [k_W k_F]; rewrite ?Hc; unfold workF; rewrite ?Hfl;
             destruct (N.leb_spec (accval acc) (cf_synced (g_core (k_F k)))) as [_|Hx]; try lia;
-            cbn [fst cf_synced cf_log]; try assumption; try (rewrite Hlen'; exact Hnt).
+            cbn [fst cf_synced cf_failed cf_log]; try assumption; try (rewrite Hlen'; exact Hnt);
+            try (eapply PFl_snoc; [exact Hfl0| cbn [lf_out lf_sync]; rewrite ?Hfl; intros; try discriminate; auto | cbn [lf_out lf_sync]; rewrite ?Hfl; intros; try discriminate; auto]).
+          -- intros e He Ho id w Hi. apply in_app_or in He. destruct He as [He|[<-|[]]]; [eapply Hdn; eassumption|].
+             cbn [lf_items] in Hi. destruct (Hmarks id w Hi) as (k0 & e0 & He0 & _).
+             exists k0, e0. split; [exact He0|].
+             rewrite Forall_forall in Hsn. apply (Hsn e0).
+             ++ destruct He0 as (Hn & _). eapply nth_error_In. exact Hn.
+             ++ destruct He0 as (_ & _ & Hm & _). rewrite Hm. pose proof (Haccval_w id w Hi). lia.
+        * (* an earlier fdatasync failed: no system call, everybody gets false *)
+          constructor; cbn [k_W k_F k_durable]; unfold cW, cF; cbn [k_W k_F]; rewrite ?Hc; unfold workF; rewrite ?Hfl;
+               destruct (N.leb_spec (accval acc) (cf_synced (g_core (k_F k)))) as [Hx|_]; try lia;
+               rewrite ?Horc; cbn [fst cf_synced cf_failed cf_log]; try assumption; try (rewrite Hlen'; exact Hnt);
+            try (eapply PFl_snoc; [exact Hfl0| cbn [lf_out lf_sync]; rewrite ?Hfl; intros; try discriminate; auto | cbn [lf_out lf_sync]; rewrite ?Hfl; intros; try discriminate; auto]).
+          -- intros e He Ho id w Hi. apply in_app_or in He. destruct He as [He|[<-|[]]]; [eapply Hdn; eassumption|].
+                cbn [lf_out] in Ho. discriminate.
+        * (* already synced far enough *)
+          constructor; cbn [k_W k_F k_durable]; unfold cW, cF; cbn [k_W k_F]; rewrite ?Hc; unfold workF; rewrite ?Hfl;
+            destruct (N.leb_spec (accval acc) (cf_synced (g_core (k_F k)))) as [_|Hx]; try lia;
+            cbn [fst cf_synced cf_failed cf_log]; try assumption; try (rewrite Hlen'; exact Hnt);
+            try (eapply PFl_snoc; [exact Hfl0| cbn [lf_out lf_sync]; rewrite ?Hfl; intros; try discriminate; auto | cbn [lf_out lf_sync]; rewrite ?Hfl; intros; try discriminate; auto]).
           -- intros e He Ho id w Hi. apply in_app_or in He. destruct He as [He|[<-|[]]]; [eapply Hdn; eassumption|].
              cbn [lf_items] in Hi. destruct (Hmarks id w Hi) as (k0 & e0 & He0 & _).
              exists k0, e0. split; [exact He0|].
@@ -599,9 +643,10 @@ Section Glue.
           destruct (cf_oracle (g_core (k_F k))) as [|[|] orc] eqn:Horc.
           -- (* success (oracle exhausted) *)
              cbn [orb].
-             constructor; cbn [k_W k_F k_durable]; unfold cW, cF; cbn [k_W k_F]; rewrite ?Hc; unfold workF;
+             constructor; cbn [k_W k_F k_durable]; unfold cW, cF; cbn [k_W k_F]; rewrite ?Hc; unfold workF; rewrite ?Hfl;
                destruct (N.leb_spec (accval acc) (cf_synced (g_core (k_F k)))) as [Hx|_]; try lia;
-               rewrite ?Horc; cbn [fst cf_synced cf_log]; try assumption; try lia; try (rewrite Hlen'; exact Hnt).
+               rewrite ?Horc; cbn [fst cf_synced cf_failed cf_log]; try assumption; try lia; try (rewrite Hlen'; exact Hnt);
+               try (eapply PFl_snoc; [exact Hfl0| cbn [lf_out lf_sync negb]; rewrite ?Hfl; intros; try discriminate; auto | cbn [lf_out lf_sync]; rewrite ?Hfl; intros; try discriminate; auto]).
              ++ destruct HP as (_ & _ & Hends). eapply Forall_impl; [|exact Hends]. cbn. intros e [H1 _] _. exact H1.
              ++ intros e He Ho id w Hi. apply in_app_or in He. destruct He as [He|[<-|[]]].
                 ** destruct (Hdn e He Ho id w Hi) as (k0 & e0 & He0 & Hend). exists k0, e0. split; [exact He0|lia].
@@ -611,9 +656,10 @@ Section Glue.
                    destruct (Hends e0 (nth_error_In _ _ Hn)) as [H1 _]. exact H1.
           -- (* success *)
              cbn [orb].
-             constructor; cbn [k_W k_F k_durable]; unfold cW, cF; cbn [k_W k_F]; rewrite ?Hc; unfold workF;
+             constructor; cbn [k_W k_F k_durable]; unfold cW, cF; cbn [k_W k_F]; rewrite ?Hc; unfold workF; rewrite ?Hfl;
                destruct (N.leb_spec (accval acc) (cf_synced (g_core (k_F k)))) as [Hx|_]; try lia;
-               rewrite ?Horc; cbn [fst cf_synced cf_log]; try assumption; try lia; try (rewrite Hlen'; exact Hnt).
+               rewrite ?Horc; cbn [fst cf_synced cf_failed cf_log]; try assumption; try lia; try (rewrite Hlen'; exact Hnt);
+               try (eapply PFl_snoc; [exact Hfl0| cbn [lf_out lf_sync negb]; rewrite ?Hfl; intros; try discriminate; auto | cbn [lf_out lf_sync]; rewrite ?Hfl; intros; try discriminate; auto]).
              ++ destruct HP as (_ & _ & Hends). eapply Forall_impl; [|exact Hends]. cbn. intros e [H1 _] _. exact H1.
              ++ intros e He Ho id w Hi. apply in_app_or in He. destruct He as [He|[<-|[]]].
                 ** destruct (Hdn e He Ho id w Hi) as (k0 & e0 & He0 & Hend). exists k0, e0. split; [exact He0|lia].
@@ -623,9 +669,10 @@ Section Glue.
                    destruct (Hends e0 (nth_error_In _ _ Hn)) as [H1 _]. exact H1.
           -- (* fdatasync failed: nothing becomes durable, everybody gets false *)
              cbn [orb].
-             constructor; cbn [k_W k_F k_durable]; unfold cW, cF; cbn [k_W k_F]; rewrite ?Hc; unfold workF;
+             constructor; cbn [k_W k_F k_durable]; unfold cW, cF; cbn [k_W k_F]; rewrite ?Hc; unfold workF; rewrite ?Hfl;
                destruct (N.leb_spec (accval acc) (cf_synced (g_core (k_F k)))) as [Hx|_]; try lia;
-               rewrite ?Horc; cbn [fst cf_synced cf_log]; try assumption; try (rewrite Hlen'; exact Hnt).
+               rewrite ?Horc; cbn [fst cf_synced cf_failed cf_log]; try assumption; try (rewrite Hlen'; exact Hnt);
+            try (eapply PFl_snoc; [exact Hfl0| cbn [lf_out lf_sync]; rewrite ?Hfl; intros; try discriminate; auto | cbn [lf_out lf_sync]; rewrite ?Hfl; intros; try discriminate; auto]).
              ++ intros e He Ho id w Hi. apply in_app_or in He. destruct He as [He|[<-|[]]]; [eapply Hdn; eassumption|].
                 cbn [lf_out] in Ho. discriminate.
   Qed.
@@ -654,6 +701,7 @@ Section Glue.
     - unfold ginit. cbn [g_core cf0 cf_log]. intros e [].
     - unfold ginit. cbn [g_threads]. rewrite !map_length. reflexivity.
     - intros t id w H. rewrite nth_map_nil in H. contradiction.
+    - unfold ginit. cbn [g_core cf0 cf_failed cf_log]. split; [constructor|]. intros pre e post E. destruct pre; discriminate.
   Qed.
 
   Theorem crun_KInv : forall sched k progsF, KInv progsF k ->
@@ -817,4 +865,12 @@ Section Glue.
     intros nW nF oracle sched HnW HnF.
     destruct (crun_KInv sched _ _ (KInv_init nW nF oracle HnW HnF)) as (k' & pF & E & HK). exists k'. exact E.
   Qed.
+
+  (* every fdatasync that succeeded was issued before any work call of the fsync core answered false:
+     no failed fdatasync precedes a successful one (fix be5f137) *)
+  Theorem wl_sync_order : forall progsF k, KInv progsF k ->
+    (cf_failed (cF k) = false -> Forall (fun e => lf_out e = true) (cf_log (cF k))) /\
+    (forall pre e post, cf_log (cF k) = pre ++ e :: post -> lf_sync e = true ->
+       Forall (fun y => lf_out y = true) pre).
+  Proof. intros progsF k HK. exact (kfl _ _ HK). Qed.
 End Glue.
